@@ -186,3 +186,69 @@ pub fn p_stream_header_write_roundtrip() {
     kani::cover!(res.is_ok() && expect == 10);
     kani::cover!(res.is_err());
 }
+
+// ---- async encoder (C01, C14, C16): byte-exactness of `StreamHeader::write_async` -----------------------
+
+/// Destination that is always ready and takes everything it is offered (every chunking / Pending
+/// pattern of the two leaf futures is covered by `p_put_varint_poll_step`).
+#[cfg(feature = "async")]
+pub struct ReadySink {
+    pub data: [u8; 24],
+    pub pos: usize,
+}
+
+#[cfg(feature = "async")]
+impl crate::bytes::AsyncWrite for ReadySink {
+    fn poll_write(
+        self: std::pin::Pin<&mut Self>,
+        _cx: &mut std::task::Context<'_>,
+        buf: &[u8],
+    ) -> std::task::Poll<std::io::Result<usize>> {
+        let this = self.get_mut();
+        let mut i = 0;
+        while i < 8 {
+            if i < buf.len() && this.pos + i < 24 {
+                this.data[this.pos + i] = buf[i];
+            }
+            i += 1;
+        }
+        this.pos += buf.len();
+        std::task::Poll::Ready(Ok(buf.len()))
+    }
+}
+
+/// For every header (all kinds, all session ids) the ASYNC encoder emits exactly the RFC bytes
+/// `varint(kind) || varint(session id)` - the same bytes as the sans-IO encoder - and nothing else.
+#[cfg(feature = "async")]
+#[kani::proof]
+#[kani::unwind(10)]
+#[kani::stub(StreamKind::is_id_exercise, crate::verif_kani::oracle::grease_varint)]
+pub fn p_stream_header_write_async_exact() {
+    use std::future::Future;
+    crate::verif_kani::oracle::enable();
+    let h = any_header();
+    let kind = stream_kind_code(&h.kind());
+    let session = h.session_id().map(|s| s.into_u64());
+    let n1 = spec::varint_len(kind);
+    let expect = n1 + session.map_or(0, spec::varint_len);
+    let mut sink = ReadySink { data: [0; 24], pos: 0 };
+    let ready = {
+        let fut = h.write_async(&mut sink);
+        let mut fut = std::pin::pin!(fut);
+        let waker = std::task::Waker::noop();
+        let mut cx = std::task::Context::from_waker(waker);
+        matches!(fut.as_mut().poll(&mut cx), std::task::Poll::Ready(Ok(())))
+    };
+    assert!(ready);
+    assert!(sink.pos == expect);
+    let i: usize = kani::any();
+    kani::assume(i < 24);
+    if i < n1 {
+        assert!(sink.data[i] == spec::varint_byte(kind, i));
+    } else if i < expect {
+        assert!(sink.data[i] == spec::varint_byte(session.unwrap(), i - n1));
+    } else {
+        assert!(sink.data[i] == 0);
+    }
+    kani::cover!(session.is_some() && expect == 10);
+}
